@@ -45,6 +45,11 @@ pub enum Mode {
     EioGo,
     /// as EioGo with ENOSPC
     EnospcGo,
+    /// process crash before call k, then a SECOND process crash in the middle of the recovery (before
+    /// one of the mutating calls the reopen issues, chosen by `cut`), then a recovery that completes
+    A2,
+    /// as A2 with the lose-all persistence model at both crashes
+    Lose2,
 }
 
 impl Mode {
@@ -57,6 +62,8 @@ impl Mode {
             Mode::Enospc => "enospc",
             Mode::EioGo => "eio-go",
             Mode::EnospcGo => "enospc-go",
+            Mode::A2 => "a2",
+            Mode::Lose2 => "lose2",
         }
     }
     fn parse(s: &str) -> Mode {
@@ -67,6 +74,8 @@ impl Mode {
             "enospc" => Mode::Enospc,
             "eio-go" => Mode::EioGo,
             "enospc-go" => Mode::EnospcGo,
+            "a2" => Mode::A2,
+            "lose2" => Mode::Lose2,
             _ => Mode::A,
         }
     }
@@ -220,6 +229,36 @@ pub fn child_recover(args: &[String]) -> i32 {
     let out = PathBuf::from(&args[2]);
     vcore::quiet_panics();
     let ctx = dummy_ctx(root.parent().unwrap_or(Path::new("/tmp")), true);
+    // `count`: run the recovery (open + close) under the shim and report how many mutating calls
+    // it issues.  `crash <k2> <a|lose>`: die before its call k2 (a second crash, during recovery).
+    match args.get(3).map(|s| s.as_str()) {
+        Some("count") => {
+            shim::CRASH_AT.store(u64::MAX, std::sync::atomic::Ordering::SeqCst);
+            shim::FAIL_AT.store(u64::MAX, std::sync::atomic::Ordering::SeqCst);
+            shim::arm(&root.to_string_lossy());
+            if let Ok(Ok(mut hs)) = vcore::guard(|| Harness::new_at(&ctx, &case, Probes::default(), root.clone())) {
+                hs.close();
+            }
+            let n = shim::COUNT.load(std::sync::atomic::Ordering::SeqCst);
+            shim::disarm();
+            std::fs::write(&out, format!("{{\"count\": {n}}}")).expect("write count");
+            return 0;
+        }
+        Some("crash") => {
+            let k2: u64 = args[4].parse().unwrap();
+            shim::FAIL_AT.store(u64::MAX, std::sync::atomic::Ordering::SeqCst);
+            shim::CRASH_AT.store(k2, std::sync::atomic::Ordering::SeqCst);
+            shim::MODE_B.store(if args.get(5).map(|s| s == "lose").unwrap_or(false) { 1 } else { 0 }, std::sync::atomic::Ordering::SeqCst);
+            shim::arm(&root.to_string_lossy());
+            if let Ok(Ok(mut hs)) = vcore::guard(|| Harness::new_at(&ctx, &case, Probes::default(), root.clone())) {
+                hs.close();
+            }
+            shim::disarm();
+            // the crash point was not reached (the recovery was shorter this time)
+            return 0;
+        }
+        _ => {}
+    }
     let mut rec = Recovered::default();
     let dump = |hs: &Harness, rec: &mut Recovered| -> (Vec<(Vec<u8>, Option<Vec<u8>>)>, Vec<(Vec<u8>, Option<Vec<u8>>)>) {
         let mut loads = vec![];
@@ -535,7 +574,7 @@ impl CrashEnum {
             .arg("child-run")
             .arg(&case_path)
             .arg(&root)
-            .arg(case.mode.name())
+            .arg(match case.mode { Mode::A2 => "a", Mode::Lose2 => "lose", m => m.name() })
             .arg(case.k.to_string())
             .arg(case.cut.to_string())
             .arg(if ctx.strict { "1" } else { "0" })
@@ -580,6 +619,36 @@ impl CrashEnum {
                 o.label("fault-caused-panic");
             } else {
                 o.label("fault-not-surfaced");
+            }
+        }
+        if matches!(case.mode, Mode::A2 | Mode::Lose2) {
+            // how many mutating calls does the recovery of this image issue?  (on a copy)
+            let cnt_root = dir.join("store-count");
+            crate::tamper::copy_tree(&root, &cnt_root);
+            let cnt_out = dir.join("count.json");
+            let _ = Command::new(&exe).arg("child-recover").arg(&case_path).arg(&cnt_root).arg(&cnt_out).arg("count").stdout(std::process::Stdio::null()).stderr(std::process::Stdio::null()).status();
+            let n2 = std::fs::read(&cnt_out).ok().and_then(|b| serde_json::from_slice::<Value>(&b).ok()).and_then(|v| v["count"].as_u64()).unwrap_or(0);
+            let _ = std::fs::remove_dir_all(&cnt_root);
+            if n2 == 0 {
+                o.label("double-crash:recovery-issues-no-mutating-call");
+            } else {
+                let k2 = (case.cut >> 8) % n2;
+                let st2 = Command::new(&exe)
+                    .arg("child-recover")
+                    .arg(&case_path)
+                    .arg(&root)
+                    .arg(dir.join("unused.json"))
+                    .arg("crash")
+                    .arg(k2.to_string())
+                    .arg(if case.mode == Mode::Lose2 { "lose" } else { "a" })
+                    .stdout(std::process::Stdio::null())
+                    .stderr(std::process::Stdio::null())
+                    .status();
+                match st2.ok().and_then(|s| s.code()) {
+                    Some(99) => o.label(format!("double-crash:recovery-killed-at-call:{}", match k2 { 0 => "0", 1..=3 => "1-3", 4..=9 => "4-9", _ => "10+" })),
+                    Some(0) => o.label("double-crash:second-point-not-reached"),
+                    other => o.label(format!("double-crash:recovery-child-exit:{other:?}")),
+                }
             }
         }
         let out = dir.join("recovered.json");
@@ -741,6 +810,12 @@ impl Part for CrashEnum {
                 }
                 if ctx.tier == Tier::Thorough || (r >> 8) % 4 == 3 {
                     modes.push(Mode::Enospc);
+                }
+                if ctx.tier == Tier::Thorough || (r >> 24) % 4 == 0 {
+                    modes.push(Mode::A2);
+                }
+                if ctx.tier == Tier::Thorough || (r >> 24) % 4 == 2 {
+                    modes.push(Mode::Lose2);
                 }
                 if ctx.tier == Tier::Thorough || (r >> 16) % 4 == 1 {
                     modes.push(Mode::EioGo);
